@@ -113,6 +113,34 @@ func c07BuildPool(verifSeed int64) []*sbom.Document {
 		t := sbom.DocumentType_SBOMType(-6)
 		d.Metadata.DocumentTypes = []*sbom.DocumentType{{Type: &t}}
 	})
+	// every free-text string replaced by one awkward style (identifiers, which edges refer to, stay)
+	styles := []func(string) string{
+		func(s string) string { return "line1\n" + s + "\nline3" },
+		func(s string) string { return "tab\t" + s + "\r\n" },
+		func(s string) string { return `quote"` + s + `\back\slash` },
+		func(s string) string { return s + "-v1.2-3-" },
+		func(s string) string { return "" },
+		func(s string) string { return "(" + s + "[*+?{" },
+		func(s string) string { return s + "\u2028\u00a0\ufeff" },
+		func(s string) string { return strings.Repeat(s+" ", 400) },
+		func(s string) string { return "%s%d%!v(" + s },
+		func(s string) string { return "\x00" + s + "\x7f" },
+	}
+	for si, style := range styles {
+		st := style
+		_ = si
+		h(func(d *sbom.Document) {
+			gen.MapStrings(d.ProtoReflect(), "", func(path, s string) string {
+				if strings.HasSuffix(path, ".id") || strings.HasSuffix(path, ".from") || strings.HasSuffix(path, ".to") || strings.HasSuffix(path, ".root_elements") {
+					return s
+				}
+				return st(s)
+			})
+			// tools/authors without version or e-mail, the usual shape of hand-made documents
+			d.Metadata.Tools = append(d.Metadata.Tools, &sbom.Tool{Name: st("tool")}, &sbom.Tool{Name: st("tool-1.0")})
+			d.Metadata.Authors = append(d.Metadata.Authors, &sbom.Person{Name: st("author")})
+		})
+	}
 	for _, ver := range []string{"99999999999999999999", "-1", "1e3", " 7 "} {
 		v := ver
 		h(func(d *sbom.Document) { d.Metadata.Version = v })
